@@ -1,5 +1,6 @@
 import Lean.Data.Json
 import PintModel.Model.Position
+import PintModel.Model.Inject
 import Driver.Util
 namespace Driver.C06
 open Lean Pint.Position Driver
@@ -40,6 +41,23 @@ def readrange (args : List String) : String :=
     | .ok j =>
       let g := fun k => (j.getObjValD k).getNat?.toOption.getD 0
       showPRs (readRange (g "first") (g "last") (prsOf (j.getObjValD "prs")))
+  | _ => "bad-op"
+
+/-- op: inject {n, diags:[{prs:[{l,f,t}], first, last}]} → PANIC | line:i,i;line:;... -/
+def inject (args : List String) : String :=
+  match args with
+  | [js] => match Json.parse js with
+    | .error _ => "bad-op"
+    | .ok j =>
+      let n := (j.getObjValD "n").getNat?.toOption.getD 0
+      let ds : List Pint.Inject.Diag := match j.getObjValD "diags" with
+        | .arr a => a.toList.map fun d =>
+          { pos := prsOf (d.getObjValD "prs"), firstCol := (d.getObjValD "first").getInt?.toOption.getD 0,
+            lastCol := (d.getObjValD "last").getInt?.toOption.getD 0 }
+        | _ => []
+      match Pint.Inject.inject n ds with
+      | none => "PANIC"
+      | some ls => String.intercalate ";" (ls.map fun (l, is) => s!"{l}:" ++ String.intercalate "," (is.map toString))
   | _ => "bad-op"
 
 end Driver.C06
